@@ -564,6 +564,76 @@ def big_batch(ctx, dirpath, n):
         ctx.fail("C09/committed-batch-lost", spec, f"one add() of {n} distinct traces: {len(missing)} rows missing, e.g. {missing[:5]}", raise_=False)
 
 
+def big_crash(ctx, dirpath, rows, fraction):
+    """a batch far larger than SQLite's page cache (so that uncommitted pages are spilled to the database file before the
+    commit), its writer SIGKILLed part-way: the reopened file must be intact and hold exactly the earlier batch"""
+    path = os.path.join(dirpath, f"bigcrash_{rows}_{int(fraction * 100)}.sqlite3")
+    # the earlier batch spreads over modules a/k/p/z, the big one over m/a/t: its index entries land among committed ones, so
+    # pages that hold committed data are modified (and spilled) too
+    specs = [[("bc_m", "bc_a", "bc_t")[i % 3], f"g{i % 97}_{i}", i % 3, (i // 3) % 3, 0, False] for i in range(rows)]
+    prior_specs = [[("bc_a", "bc_k", "bc_p", "bc_z")[i % 4], f"small_{i}", i % 3, 0, 0, False] for i in range(1200)]
+
+    def fresh():
+        for suffix in ("", "-journal", "-wal", "-shm"):
+            if os.path.exists(path + suffix):
+                os.unlink(path + suffix)
+        s0 = SQLiteStore.make_store(path)
+        s0.add([mk_trace(t) for t in prior_specs])
+        s0.conn.close()
+
+    def child(kill_at, report):
+        pid = os.fork()
+        if pid == 0:
+            try:
+                st_ = SQLiteStore.make_store(path)
+                c = [0]
+
+                def h():
+                    c[0] += 1
+                    if kill_at and c[0] == kill_at:
+                        os.kill(os.getpid(), signal.SIGKILL)
+                    return 0
+                st_.conn.set_progress_handler(h, 2000)
+                st_.add([mk_trace(t) for t in specs])
+                if report:
+                    with open(report, "w") as f:
+                        f.write(str(c[0]))
+            finally:
+                os._exit(0)
+        os.waitpid(pid, 0)
+
+    fresh()
+    rep = path + ".steps"
+    child(0, rep)
+    total = int(open(rep).read())
+    os.unlink(rep)
+    fresh()
+    kill_at = max(1, int(total * fraction))
+    child(kill_at, None)
+    spec = ["BIGCRASH", rows, fraction]
+    ctx.case(spec, True, ["crash:kill-after-cache-spill", f"batch-size={rows}"])
+    try:
+        integrity, names = count_rows(path)
+    except sqlite3.DatabaseError as e:
+        return ctx.fail("C09/database-corrupt-after-interruption", spec, f"writer of a {rows}-row batch killed at {kill_at}/{total}: reading the file raises {e!r}", raise_=False)
+    if integrity != [("ok",)]:
+        return ctx.fail("C09/database-corrupt-after-interruption", spec, f"writer of a {rows}-row batch killed at {kill_at}/{total}: integrity_check {integrity[:3]}", raise_=False)
+    try:
+        s2 = SQLiteStore.make_store(path)
+        got = set()
+        for m in ("bc_a", "bc_k", "bc_p", "bc_z", "bc_m", "bc_t"):
+            got |= {r.qualname for r in s2.filter(m, None, 10 ** 7)}
+        s2.conn.close()
+    except Exception as e:
+        return ctx.fail("C09/store-unusable-after-interruption", spec, f"writer killed at {kill_at}/{total}: {e!r}", raise_=False)
+    prior = {t[1] for t in prior_specs}
+    if not prior <= got:
+        return ctx.fail("C09/committed-batch-lost", spec, f"earlier batch: {len(prior - got)} of {len(prior)} rows missing after the kill", raise_=False)
+    part = got - prior
+    if part and len(part) != rows:
+        ctx.fail("C09/batch-partially-committed", spec, f"{len(part)} of {rows} rows of the killed batch are in the file", raise_=False)
+
+
 def shard(ctx):
     q = ctx.tier == "quick"
     d = tempfile.mkdtemp(prefix="c09-")
@@ -589,6 +659,10 @@ def shard(ctx):
         if ctx.shard == 0:
             for n in ((450,) if q else (199, 200, 201, 450, 1000, 2500)):
                 big_batch(ctx, d, n)
+        plan = [(30000, 0.6)] if q else [(30000, 0.3), (30000, 0.6), (30000, 0.9), (60000, 0.5), (60000, 0.95)]
+        for j, (rows, frac) in enumerate(plan):
+            if ctx.shard == (1 + j) % ctx.nshards:
+                big_crash(ctx, d, rows, frac)
     finally:
         shutil.rmtree(d, ignore_errors=True)
 
@@ -619,6 +693,8 @@ def replay(ctx, case):
             paused_writer(ctx, d, case[1])
         elif case[0] == "RACE":
             free_running(ctx, d, case[1], case[2], case[3] if len(case) > 3 else 0)
+        elif case[0] == "BIGCRASH":
+            big_crash(ctx, d, case[1], case[2])
         elif case[0] == "BIG":
             big_batch(ctx, d, case[1])
     finally:
